@@ -4,7 +4,7 @@ from __future__ import annotations
 import ast
 
 from engine.defuse import value_sources
-from engine.flow import reachable_from_entry, same_name_value
+from engine.flow import dominating_guards, reachable_from_entry, same_name_value
 from .links import check_links
 
 META = {
@@ -216,7 +216,62 @@ def check(ctx):
     ctx.need(nconv >= 1, "no converting handler found on the routes: vanished anchors")
 
     # ---------------------------------------------------------------- C15.3 links
-    check_links(ctx, "link", need_container=True)
+    check_links(ctx, "link", need_container=True, need_key=True)
+
+    # ---------------------------------------------------------------- C15.3b item position
+    # (i) the container link is tested for None-ness, not truthiness: a typed list is falsy while empty,
+    #     i.e. exactly while its first item is being loaded
+    Config = model.cls("Config")
+    rp = model.method("Config", "_ref_path")
+    g = an.cfg(rp)
+    containers = [c for c in model.classes.values() if c.node is not None and c.is_subclass_of(model.cls("ContainerValueMixin"))
+                  and (c.is_subclass_of("list") or c.is_subclass_of("dict"))]
+    pos_calls = [n for n in g.nodes if n.kind == "call" and isinstance(n.ast.func, ast.Attribute) and n.ast.func.attr == "_get_item_position"]
+    ctx.need(bool(pos_calls), "Config._ref_path no longer asks its container for the item position: vanished anchor")
+    for n in pos_calls:
+        form = None
+        for t, tr in dominating_guards(an, rp, n):
+            e = t.ast
+            if isinstance(e, ast.Attribute) and e.attr == "_container" and tr:
+                form = form or "truthiness"
+            if isinstance(e, ast.Compare) and isinstance(e.left, ast.Attribute) and e.left.attr == "_container" and \
+                    isinstance(e.comparators[0], ast.Constant) and e.comparators[0].value is None and \
+                    ((isinstance(e.ops[0], ast.IsNot) and tr) or (isinstance(e.ops[0], ast.Is) and not tr)):
+                form = "is not None"
+        ok = form == "is not None" or (form == "truthiness" and not containers)
+        ctx.ob("path.container-guard", rp, n.ast, ok,
+               "the position is looked up whenever a container is linked" if ok else
+               ("`if self._container:` is false for an *empty* %s -- the state it is in while its first item is loaded: an error in "
+                "item 0 is reported without its index" % containers[0].name if form == "truthiness" else
+                "the item position is looked up without checking that a container is linked"), node=n)
+    # (ii) _get_item_position answers from the container's own content (index(item), else len(self)), so while a list is
+    #      being built from a whole value the items must enter it one by one, interleaved with their validation
+    lp = model.cls("ListProxy")
+    gip = lp.methods.get("_get_item_position")
+    ctx.need(gip is not None, "ListProxy._get_item_position vanished")
+    content_based = any(isinstance(x, ast.Call) and ((isinstance(x.func, ast.Attribute) and x.func.attr == "index") or
+                                                    (isinstance(x.func, ast.Name) and x.func.id == "len")) for x in ast.walk(gip.node))
+    if content_based:
+        from .common import STATE
+        st = an.summary(STATE)
+        init = lp.methods.get("__init__")
+        gi = an.cfg(init)
+        for n in gi.nodes:
+            if n.kind != "call":
+                continue
+            evs = [e for e in st.direct(init, n) if e[0] == "W_BUILTIN"]
+            if not evs or not n.ast.args:
+                continue
+            a0 = n.ast.args[0]
+            validating = any(isinstance(x, ast.Call) and isinstance(x.func, ast.Attribute) and x.func.attr == "_validate" for x in ast.walk(a0))
+            if not validating:
+                continue
+            lazy = isinstance(a0, ast.GeneratorExp)
+            in_loop = gi.path(n, lambda x: x is n, may_raise=lambda x: False, from_successors=True) is not None
+            ctx.ob("path.items-enter-one-by-one", init, n.ast, lazy or in_loop,
+                   "items are validated while the list fills (generator consumed by list.__init__): an error names the index reached" if lazy or in_loop else
+                   "all items are validated before any is stored: _get_item_position (index(item) / len(self)) sees an empty list and every "
+                   "error is reported at the wrong (or no) index", node=n)
 
     # ---------------------------------------------------------------- C15.4 DictProxy
     dv = model.method("DictProxy", "_validate")
